@@ -33,7 +33,7 @@ RULE = ("case = site (none | 1..5 generated resources at paths of 0..3 segments,
         "tuple/float/object/type (also from a resource with its own render() and no blockwise assembly, "
         "where the value reaches the pipe unchecked) | raises a renderable error whose to_message raises / "
         "returns None / returns a str or tuple | "
-        "raises CancelledError | never returns; delay 0, 1, EMPTY_ACK_DELAY-1/+0/+1, longer; a request "
+        "raises CancelledError | returns a message that cannot be serialised (oracle only) | never returns; delay 0, 1, EMPTY_ACK_DELAY-1/+0/+1, longer; a request "
         "may reuse the token of one still running (stop), whose handler then dies, raises or returns "
         "anyway; peers ACK separate responses at once, after one retransmission, or RST them. "
         "Boundary tables enumerated in full: methods x code given/absent x CON/NON; every renderable "
@@ -100,6 +100,8 @@ def outcome_token(h):
         return "n." + hx(c09_run.secret(h["k"]).encode())
     if o == "rfail":
         return "z" if h["how"] == "none" else "q." + hx(c09_run.secret(h["k"]).encode())
+    if o == "unenc":
+        return None              # the model has no "sending raises" path: judged by the oracle only
     if o == "cancel":
         return "c"
     if o == "hang":
@@ -233,7 +235,7 @@ def expected(case, rq, inf):
         code, default = RENDERABLE[h["cls"]]
         text = default if (h["msg"] is None or h["cls"] in FIXED_TEXT) else h["msg"]
         return ("rend", code, text.encode())
-    return (o, 160, b"")                              # exc / nonmsg / rfail / cancel: bare 5.00
+    return (o, 160, b"")                              # exc / nonmsg / rfail / cancel / unenc: bare 5.00
 
 
 def oracle(case, obs):
@@ -349,6 +351,9 @@ class Gen:
             h["k"] = self.secret_k()
         elif kind == "rfail":
             h["how"] = rng.choice(c09_run.RFAIL_KINDS)
+            h["k"] = self.secret_k()
+        elif kind == "unenc":
+            h["how"] = rng.choice(["payload", "option"])
             h["k"] = self.secret_k()
         return h
 
@@ -587,6 +592,24 @@ def boundary_cases(gen):
                         reqs.append(gen.request(t, 1, m, ["g"], mtype=mts[i % 3], nr=None))
                         t += gap
                     pack(site, reqs, {"1": policy})
+    # 8. a handler whose message cannot be serialised (str payload, option value out of range), quick and slow,
+    #    CON and NON, with healthy slow requests of the same and of another peer in flight and afterwards:
+    #    one bare 5.00 for it, and nobody else is affected (oracle only)
+    for how in ("payload", "option"):
+        for d in (0, 3 * EAD):
+            for mt in ("CON", "NON"):
+                site = [{"path": ["u"], "handlers": {
+                    "1": {"o": "unenc", "d": d, "stubborn": False, "how": how, "k": gen.secret_k()},
+                    "2": {"o": "ret", "d": 2 * EAD, "stubborn": False, "code": None, "payload": "736c6f77", "nr": None},
+                    "3": {"o": "ret", "d": 0, "stubborn": False, "code": None, "payload": "6f6b", "nr": None}}}]
+                reqs = [gen.request(50, 0, 2, ["u"], mtype="CON", nr=None),
+                        gen.request(60, 0, 1, ["u"], mtype=mt, nr=None),
+                        gen.request(70, 1, 1, ["u"], mtype=mt, nr=None),
+                        gen.request(80, 0, 2, ["u"], mtype="CON", nr=None),
+                        gen.request(90, 0, 3, ["u"], mtype="CON", nr=None),
+                        gen.request(50 + 10 * EAD, 0, 2, ["u"], mtype="CON", nr=None),
+                        gen.request(60 + 10 * EAD, 0, 3, ["u"], mtype="NON", nr=None)]
+                pack(site, reqs, {"0": "ack", "1": "ack"})
     return cases
 
 
@@ -599,9 +622,12 @@ def observe(case):
 def check_case(env, rep, case, lines, impls, kept):
     obs = observe(case)
     evs, info = schedule(case, obs["stops"])
-    lines.append(model_line(case, evs))
-    impls.append(impl_string(evs, obs))
-    kept.append(case)
+    if any(h["o"] == "unenc" for r in case["site"] or [] for h in r["handlers"].values()):
+        rep.count("oracle-only:unencodable-response")
+    else:
+        lines.append(model_line(case, evs))
+        impls.append(impl_string(evs, obs))
+        kept.append(case)
     verdict, key = oracle(case, obs)
     if verdict:
         rep.oracle_fail(case, verdict, key=key)
